@@ -58,7 +58,8 @@ class Patches:
 
         # ! ---- Key properties for defining patches
 
-        self.num_patches: list[int] = num_patches
+        # Keep a private copy; the caller may go on using (and modifying) its list.
+        self.num_patches: list[int] = list(num_patches)
         """Number of patches in row, col, (depth, time)."""
 
         self.num_active_spatial_axes = min(len(self.num_patches), self.base.space_dim)
